@@ -212,7 +212,8 @@ static int uriCompose(const char *scheme, const char *user, const char *pass, co
 	}
 
 	if (host != NULL) {
-		count += KSI_snprintf(buf + count, len - count, "%s", host);
+		/* The URL parser strips the brackets of an IPv6 literal, put them back. */
+		count += KSI_snprintf(buf + count, len - count, (strchr(host, ':') != NULL) ? "[%s]" : "%s", host);
 	}
 
 	if (port != 0) {
